@@ -512,11 +512,11 @@ class Model:
         # If merge, combine adjacent layers of identical properties.
         if merge:
 
-            # Get indices of non-merge sequences.
-            diff = np.zeros(self.shape[2])
+            # Get indices of non-merge sequences (first layer always kept).
+            diff = np.zeros(self.shape[2]-1)
             for k, v in props.items():
-                diff += abs(np.diff(np.r_[-1, v]))
-            ind = diff.nonzero()[0]
+                diff += abs(np.diff(v))
+            ind = np.r_[0, diff.nonzero()[0]+1]
 
             # Merge.
             props = {k: v[ind] for k, v in props.items()}
